@@ -18,6 +18,11 @@ type importInfo struct {
 	pkg   *pkgInfo
 	style int // 0 package, 1 alias, 2 file
 	file  string
+
+	alias     string // style 1: the alias written after the colon
+	shortLost bool   // style 0: the implicit short alias belongs to another import of this file
+	shortUsed bool   // style 0: some reference was written through the implicit short alias
+	hasLosers bool   // another import lost its implicit alias to this one: must be written after it
 }
 
 type element struct {
@@ -27,6 +32,8 @@ type element struct {
 	nested []*element // entity nested schemas
 	opts   []string   // enum options / entity statuses
 	sums   []string   // entity named summaries
+	rich   bool       // entity: XEntityRich shape
+	cmds   []string   // entity: XMultiCommand command block names ("" = the default FooCommand)
 }
 
 // fileGen generates one .j5s file.
@@ -38,6 +45,15 @@ type fileGen struct {
 	planned []*typeInfo
 	imports []*importInfo
 	first   bool // first object of the file not yet generated
+
+	aliasOwner  map[string]*importInfo // alias -> import owning it (membership / lookup only)
+	refForm     int                    // refText: 0 random, 1 short alias if possible, 2 full package name
+	firstInPkg  bool                   // first .j5s file of its package
+	forceKinds  []int                  // element kinds that must appear (after the first element)
+	entityOnly  bool
+	exoticObjs  int  // exotic objects rendered so far
+	maxElems    int  // 0: cfg.MaxElements
+	leanMethods bool // renderMethod: at most one path parameter / extra field (several command blocks)
 }
 
 var j5sBaseNames = []string{"core", "types", "api", "model", "extra", "state"}
@@ -54,6 +70,87 @@ func (g *gen) genLocalPackage(p *pkgInfo) {
 	nProto := g.weighted([]int{48, 44, 8})
 	j5sNames := g.distinct(j5sBaseNames, nJ5s)
 	protoNames := g.distinct(protoBaseNames, nProto)
+
+	// ---- exotic shapes ----
+	dotted := false
+	switch {
+	case p.protoOnly:
+		j5sNames = nil
+		if len(protoNames) == 0 {
+			protoNames = g.distinct(protoBaseNames, r.between(1, 2))
+		}
+	case p.entityOnly:
+		j5sNames = j5sNames[:1]
+		protoNames = nil
+	default:
+		if g.deep {
+			// many packages: keep each of them small
+			j5sNames = j5sNames[:1]
+			if len(protoNames) > 1 {
+				protoNames = protoNames[:1]
+			}
+		}
+		if p.twoProtos && len(protoNames) < 2 {
+			// two hand-written files (with different go_package options) instead of a second / third .j5s file
+			protoNames = g.distinct(protoBaseNames, 2+g.weighted([]int{80, 20}))
+			if len(j5sNames) > 1 {
+				j5sNames = j5sNames[:len(j5sNames)-1]
+			}
+		}
+		if p.twin != nil && p.twin.local {
+			// same-named files in both packages
+			var mirrored []string
+			for _, n := range p.twin.fileNames {
+				if len(mirrored) < len(j5sNames) {
+					mirrored = append(mirrored, n)
+				}
+			}
+			for _, n := range j5sNames {
+				dup := false
+				for _, m := range mirrored {
+					if m == n {
+						dup = true
+					}
+				}
+				if !dup && len(mirrored) < len(j5sNames) {
+					mirrored = append(mirrored, n)
+				}
+			}
+			if len(p.twin.fileNames) > 0 {
+				g.feat("twin_file_name")
+			}
+			j5sNames = mirrored
+		} else if g.on(XDottedFiles) {
+			// order.j5s + order.refund.j5s (+ order.refund.v2.j5s): all of them
+			// produce service/ and topic/ files whose names differ only
+			// between the dots
+			if len(j5sNames) == 1 && g.cfg.MaxFilesPerPackage >= 2 && !g.deep && r.chance(60) {
+				j5sNames = append(j5sNames, "")
+			}
+			if len(j5sNames) >= 2 {
+				words := g.distinct([]string{"refund", "v2", "part", "p", "j5s", "draft"}, 2)
+				j5sNames[1] = j5sNames[0] + "." + words[0]
+				if len(j5sNames) >= 3 {
+					j5sNames[2] = j5sNames[1] + "." + words[1]
+				}
+				dotted = true
+				g.xfeat(XDottedFiles)
+				g.feat("dotted_j5s_file_name")
+				// hand-written files whose names clash with the generated ones up to the extension
+				for k := range protoNames {
+					if r.chance(60) {
+						if k == 0 {
+							protoNames[k] = j5sNames[0] // core.proto next to core.j5s(.proto)
+						} else {
+							protoNames[k] = j5sNames[0] + "." + protoNames[k]
+						}
+						g.feat("proto_name_like_j5s_file")
+					}
+				}
+			}
+		}
+	}
+	p.fileNames = append([]string{}, j5sNames...)
 
 	// random interleaving of j5s and proto files = file dependency order
 	type pf struct {
@@ -72,28 +169,51 @@ func (g *gen) genLocalPackage(p *pkgInfo) {
 		idx[i] = i
 	}
 	r.shuffleInts(idx)
-	if nJ5s >= 2 {
+	if len(j5sNames) >= 2 {
 		g.feat("pkg_multi_j5s_files")
 	}
-	if nProto > 0 {
+	if len(protoNames) > 0 {
 		g.feat("pkg_has_local_proto")
 	}
+	firstJ5s := true
 	for _, i := range idx {
 		f := files[i]
 		if f.proto {
 			g.genLocalProto(p, p.dir+"/"+f.name+".proto")
-		} else {
-			g.genJ5sFile(p, p.dir+"/"+f.name+".j5s")
+			continue
 		}
+		fg := &fileGen{g: g, pkg: p, first: true, firstInPkg: firstJ5s, entityOnly: p.entityOnly, aliasOwner: map[string]*importInfo{}}
+		firstJ5s = false
+		if dotted {
+			// both a service and a topic in most of the dotted files
+			switch x := r.intn(10); {
+			case x < 3:
+				fg.forceKinds = []int{eService}
+			case x < 6:
+				fg.forceKinds = []int{eTopic}
+			default:
+				fg.forceKinds = []int{eService, eTopic}
+			}
+			// service + topic + the L3 object are the whole file then
+			fg.maxElems = 3
+		}
+		if g.deep {
+			fg.maxElems = 2
+		}
+		g.genJ5sFile(fg, p.dir+"/"+f.name+".j5s")
 	}
 }
 
-func (g *gen) genJ5sFile(p *pkgInfo, src string) {
+func (g *gen) genJ5sFile(fg *fileGen, src string) {
 	r := g.r
-	fg := &fileGen{g: g, pkg: p, src: src, out: src + ".proto", first: true}
+	p := fg.pkg
+	fg.src, fg.out = src, src+".proto"
 
 	// ---- plan ----
 	maxE := g.cfg.MaxElements
+	if fg.maxElems > 0 && maxE > fg.maxElems {
+		maxE = fg.maxElems
+	}
 	nElem := r.between(1, maxE)
 	if g.large {
 		nElem = r.between(2, maxE)
@@ -103,6 +223,91 @@ func (g *gen) genJ5sFile(p *pkgInfo, src string) {
 	// descriptor it prints (quadratic), and entities / services expand into
 	// many messages: at most one entity and one service per file.
 	w := []int{eObject: 24, eOneof: 11, eEnum: 16, eEntity: 15, eService: 17, eTopic: 17}
+
+	// ---- exotic shapes: kinds that must appear. They REPLACE random
+	// elements (they take the last slots) instead of adding to them.
+	first0 := -1
+	var forced []int
+	addForced := func(k int) {
+		if k == first0 {
+			return
+		}
+		for _, f := range forced {
+			if f == k {
+				return
+			}
+		}
+		forced = append(forced, k)
+	}
+	if fg.entityOnly {
+		nElem, first0 = 1, eEntity
+		g.feat("j5s_file_entity_only")
+	} else {
+		if g.firstJ5s && g.on(XBareForeign) && r.chance(50) {
+			// bare foreign references like an entity to point at (they are
+			// never resolved, so they do without one as well)
+			if r.chance(50) {
+				first0 = eEntity
+			} else {
+				addForced(eEntity)
+			}
+		}
+		// XEntityRich and XMultiCommand shape the entities that are there
+		// anyway (2/3 of the Default bundles have one): forcing an extra
+		// entity into every bundle costs ~12 ms each.
+		if (g.on(XEntityRich) || g.on(XMultiCommand)) && g.firstJ5s && r.chance(30) {
+			addForced(eEntity)
+		}
+		if g.on(XEnumRulesXref) && fg.firstInPkg && r.chance(70) {
+			addForced(eEnum)
+		}
+		for _, k := range fg.forceKinds {
+			addForced(k)
+		}
+		if len(forced) >= 2 && forced[0] == eEntity {
+			first0, forced = eEntity, forced[1:]
+		}
+		if nElem < 1+len(forced) {
+			nElem = 1 + len(forced)
+		}
+		// A forced entity is paid for: the rest of the file is made of cheap
+		// elements (no service, hardly a topic) and the file stays short.
+		entityForced := first0 == eEntity
+		for _, f := range forced {
+			if f == eEntity {
+				entityForced = true
+			}
+		}
+		if entityForced {
+			keepSvc, keepTopic := false, false
+			for _, f := range forced {
+				keepSvc = keepSvc || f == eService
+				keepTopic = keepTopic || f == eTopic
+			}
+			if !keepSvc {
+				w[eService] = 0
+			}
+			if !keepTopic {
+				w[eTopic] = 4
+			}
+			if min := 1 + len(forced); nElem > min && nElem > 2 {
+				nElem = 2
+				if min > 2 {
+					nElem = min
+				}
+			}
+		}
+	}
+	g.firstJ5s = false
+	var kinds []int
+	chosen := func(k int) bool {
+		for _, x := range kinds {
+			if x == k {
+				return true
+			}
+		}
+		return false
+	}
 	for i := 0; i < nElem; i++ {
 		// L3: the first element must put an object into the main file
 		// (an entity does that too)
@@ -112,9 +317,24 @@ func (g *gen) genJ5sFile(p *pkgInfo, src string) {
 		} else if r.chance(15) {
 			kind = eEntity
 		}
+		if i == 0 && first0 >= 0 {
+			kind = first0
+		}
+		if i > 0 && len(forced) > 0 {
+			var pending []int
+			for _, f := range forced {
+				if !chosen(f) && f != kind {
+					pending = append(pending, f)
+				}
+			}
+			if len(pending) > nElem-i-1 {
+				kind = pending[0]
+			}
+		}
 		if kind == eEntity || kind == eService {
 			w[kind] = 0
 		}
+		kinds = append(kinds, kind)
 		elems = append(elems, fg.planElement(kind))
 	}
 
@@ -122,10 +342,12 @@ func (g *gen) genJ5sFile(p *pkgInfo, src string) {
 	var body []string
 	for _, e := range elems {
 		body = append(body, "")
+		body = append(body, g.sourceComments()...)
 		body = append(body, fg.renderElement(e)...)
 	}
 
 	var out []string
+	out = append(out, g.sourceComments()...)
 	out = append(out, "package "+p.name, "")
 	if len(fg.imports) > 0 {
 		idx := make([]int, len(fg.imports))
@@ -133,14 +355,28 @@ func (g *gen) genJ5sFile(p *pkgInfo, src string) {
 			idx[i] = i
 		}
 		r.shuffleInts(idx)
+		// An alias is owned by the LAST import that defines it (j5Imports
+		// fills a map in file order): imports that won an alias clash are
+		// written after the others.
+		var order []int
 		for _, i := range idx {
+			if !fg.imports[i].hasLosers {
+				order = append(order, i)
+			}
+		}
+		for _, i := range idx {
+			if fg.imports[i].hasLosers {
+				order = append(order, i)
+			}
+		}
+		for _, i := range order {
 			imp := fg.imports[i]
 			switch imp.style {
 			case 0:
 				out = append(out, "import "+imp.pkg.name)
 				g.feat("import_by_package")
 			case 1:
-				out = append(out, "import "+imp.pkg.name+":"+imp.pkg.alias)
+				out = append(out, "import "+imp.pkg.name+":"+imp.alias)
 				g.feat("import_by_alias")
 			default:
 				out = append(out, fmt.Sprintf("import %q", imp.file))
@@ -189,31 +425,70 @@ func (fg *fileGen) planElement(kind int) *element {
 	e := &element{kind: kind}
 	switch kind {
 	case eObject:
-		e.name = g.typeName(p, nil)
+		e.name = g.typeNameK(p, kObject, nil)
 		fg.addPlanned(kObject, e.name, e.name, nil)
 	case eOneof:
-		e.name = g.typeName(p, nil)
+		e.name = g.typeNameK(p, kOneof, nil)
 		fg.addPlanned(kOneof, e.name, e.name, nil)
 	case eEnum:
-		e.name = g.typeName(p, nil)
+		e.name = g.typeNameK(p, kEnum, nil)
 		e.lines = g.renderEnum("enum", e.name, &e.opts)
 		fg.addPlanned(kEnum, e.name, e.name, e.opts)
 	case eEntity:
-		e.name = g.typeName(p, entityDerived)
+		e.name = g.typeNameK(p, kEntity, entityDerived)
 		n := e.name
+		e.rich = g.on(XEntityRich) && (fg.entityOnly || r.chance(75))
+		// several command blocks: `command { }` is FooCommandService,
+		// `command Admin { }` and `command AdminCommand { }` are AdminCommandService
+		if g.on(XMultiCommand) && r.chance(85) {
+			want := 2 + g.weighted([]int{70, 30})
+			for i, base := range g.distinct([]string{"Admin", "Ops", "Internal", "Batch", "Review", "Support", "Backoffice"}, 7) {
+				if len(e.cmds) >= want {
+					break
+				}
+				if i == 0 && r.chance(60) {
+					e.cmds = append(e.cmds, "")
+					continue
+				}
+				// the service lives in <pkg>.service; reserve it package-wide all the same
+				if !p.reserve(base+"Command", base+"CommandService") {
+					continue
+				}
+				if r.chance(30) {
+					base += "Command"
+				}
+				e.cmds = append(e.cmds, base)
+			}
+		}
+		lean := len(e.cmds) > 0 && !e.rich // the command blocks replace summaries and nested schemas
 		// named summaries
-		if r.chance(30) {
-			for _, s := range g.distinct([]string{"Brief", "Digest", "Outline"}, r.between(1, 2)) {
+		if e.rich || (!lean && r.chance(30)) {
+			ns := r.between(1, 2)
+			for _, s := range g.distinct([]string{"Brief", "Digest", "Outline"}, ns) {
 				if p.reserve(n+s, n+s+"Topic", n+s+"Message") {
 					e.sums = append(e.sums, s)
 				}
 			}
 		}
 		// nested schemas
-		if r.chance(65) {
+		if e.rich || r.chance(65) {
 			nn := r.between(1, 3)
+			if lean {
+				nn = 1
+			}
+			var nestKinds []int
+			if e.rich {
+				// an enum plus an object and / or a oneof, all used by events
+				nestKinds = []int{eEnum, eObject, eOneof}[:2+g.weighted([]int{65, 35})]
+				nn = len(nestKinds)
+			}
 			for i := 0; i < nn; i++ {
-				k := g.weighted([]int{eObject: 40, eOneof: 25, eEnum: 35})
+				var k int
+				if nestKinds != nil {
+					k = nestKinds[i]
+				} else {
+					k = g.weighted([]int{eObject: 40, eOneof: 25, eEnum: 35})
+				}
 				ne := &element{kind: k, name: g.typeName(p, nil)}
 				switch k {
 				case eObject:
@@ -296,6 +571,9 @@ func (g *gen) descLines(feature string, pct int) []string {
 		return nil
 	}
 	g.feat(feature)
+	if g.on(XDescExotic) && g.r.chance(50) {
+		return append(barLines(g.exoticDescBlock()), "")
+	}
 	out := []string{"| " + g.desc()}
 	if g.r.chance(35) {
 		out = append(out, "| "+g.desc())
@@ -365,11 +643,36 @@ func (fg *fileGen) renderObject(kw, name string) []string {
 		g.feat("object_any_member")
 	}
 	var fields []string
+	nExotic := 0
 	if fg.first {
 		fg.first = false
 		fields = append(fields, fg.forcedRefs(c, names)...)
+		x := fg.exoticRefs(c, names)
+		nExotic = len(x)
+		for _, f := range x {
+			fields = append(fields, f...)
+		}
 	}
-	fields = append(fields, c.properties("field", g.nFields(), 0, names, true)...)
+	nf := g.nFields()
+	if kw == "object" && g.on(XObjectExotic) && fg.exoticObjs < 2 && r.chance(65) {
+		fg.exoticObjs++
+		x := fg.exoticFields(c, names)
+		nExotic += len(x)
+		for _, f := range x {
+			fields = append(fields, f...)
+		}
+	}
+	if nExotic > 0 {
+		// the exotic fields replace random ones
+		nf -= nExotic
+		if nf < 0 {
+			nf = 0
+		}
+		if nf > 1 {
+			nf = 1
+		}
+	}
+	fields = append(fields, c.properties("field", nf, 0, names, true)...)
 	if c.vt.needs && !c.vt.anchors {
 		fields = append(fields, c.anchor("field", names)...)
 	}
@@ -406,6 +709,9 @@ func (fg *fileGen) forcedRefs(c *fctx, names *fieldNames) []string {
 	r := g.r
 	var cats [4][]*typeInfo // local proto same pkg, j5s same pkg other file, other local pkg, dep
 	for _, t := range g.types {
+		if !fg.mayRef(t.pkg) {
+			continue
+		}
 		switch {
 		case t.pkg == fg.pkg && t.origin == oProto:
 			cats[0] = append(cats[0], t)
@@ -440,6 +746,7 @@ func (fg *fileGen) forcedRefs(c *fctx, names *fieldNames) []string {
 				if len(t.options) > 0 && r.chance(40) {
 					ft.attrs = append(ft.attrs, fmt.Sprintf("rules.in = [%q]", r.pick(t.options)))
 					g.feat("enum_rules_in")
+					fg.enumRuleFeat(t)
 				}
 			}
 			if r.chance(35) {
@@ -458,6 +765,295 @@ func (fg *fileGen) forcedRefs(c *fctx, names *fieldNames) []string {
 	return out
 }
 
+// enumRuleFeat counts where the enum of a rules.in / rules.notIn lives
+// relative to the file using it.
+func (fg *fileGen) enumRuleFeat(t *typeInfo) {
+	g := fg.g
+	switch {
+	case t.origin == oDep:
+		g.feat("enum_rules_on_dep_enum")
+	case t.origin == oProto && t.pkg == fg.pkg:
+		g.feat("enum_rules_on_local_proto_enum")
+	case t.origin == oProto:
+		g.feat("enum_rules_on_other_pkg_proto_enum")
+	case t.pkg != fg.pkg:
+		g.feat("enum_rules_on_other_pkg_j5s_enum")
+	case t.file != fg.out:
+		g.feat("enum_rules_on_other_j5s_file_enum")
+	default:
+		g.feat("enum_rules_on_same_file_enum")
+	}
+}
+
+// refField renders one field referencing t. form: see fileGen.refForm.
+func (fg *fileGen) refField(c *fctx, names *fieldNames, t *typeInfo, form int, attrs ...string) []string {
+	fg.refForm = form
+	text := fg.refText(t)
+	fg.refForm = 0
+	var ft ftype
+	switch t.kind {
+	case kObject:
+		ft = ftype{typ: "object:" + text, hasExt: true, canOptional: true}
+	case kOneof:
+		ft = ftype{typ: "oneof:" + text, hasExt: true, canOptional: true}
+	default:
+		ft = ftype{typ: "enum:" + text, hasExt: true, hasV: true, anchorsV: true, canOptional: true}
+	}
+	ft.attrs = attrs
+	return c.renderProperty("field", fg.g.fieldName(names), ft, true)
+}
+
+// anyType picks a type of package q (nil if it has none yet).
+func (g *gen) anyType(q *pkgInfo) *typeInfo {
+	var ts []*typeInfo
+	for _, t := range g.types {
+		if t.pkg == q {
+			ts = append(ts, t)
+		}
+	}
+	if len(ts) == 0 {
+		return nil
+	}
+	return ts[g.r.intn(len(ts))]
+}
+
+// commonType picks a type of package a and one of package b, with equal
+// names and kinds if the packages have such a pair.
+func (g *gen) commonType(a, b *pkgInfo) (*typeInfo, *typeInfo) {
+	var as, bs, pa, pb []*typeInfo
+	for _, t := range g.types {
+		if t.pkg == a {
+			as = append(as, t)
+		} else if t.pkg == b {
+			bs = append(bs, t)
+		}
+	}
+	for _, x := range as {
+		for _, y := range bs {
+			if x.name == y.name && x.kind == y.kind {
+				pa, pb = append(pa, x), append(pb, y)
+			}
+		}
+	}
+	if len(pa) > 0 {
+		i := g.r.intn(len(pa))
+		g.feat("same_type_name_in_two_imported_pkgs")
+		return pa[i], pb[i]
+	}
+	if len(as) == 0 || len(bs) == 0 {
+		return nil, nil
+	}
+	return as[g.r.intn(len(as))], bs[g.r.intn(len(bs))]
+}
+
+// exoticRefs returns the reference fields of the exotic package shapes for
+// the first object of a file (one []string per field).
+func (fg *fileGen) exoticRefs(c *fctx, names *fieldNames) [][]string {
+	g := fg.g
+	r := g.r
+	p := fg.pkg
+	var out [][]string
+
+	// foo.v1 + foo.v10: a third package uses both by their full names; the
+	// later twin uses the earlier one
+	if a, b := g.prefixA, g.prefixB; a != nil {
+		switch {
+		case p != a && p != b && fg.mayRef(a) && fg.mayRef(b):
+			if ta, tb := g.commonType(a, b); ta != nil {
+				out = append(out, fg.refField(c, names, ta, 2), fg.refField(c, names, tb, 2))
+				g.feat("prefix_pkgs_both_imported")
+			}
+		case p == b && fg.mayRef(a) && r.chance(60):
+			if ta := g.anyType(a); ta != nil {
+				out = append(out, fg.refField(c, names, ta, 2))
+				g.feat("prefix_pkg_imports_its_prefix")
+			}
+		}
+	}
+	// extone.v1 + extone.v10 as dependencies (forced only, L22)
+	if g.on(XDepPkgPrefix) && len(g.deps) >= 2 && g.deps[1].twin == g.deps[0] {
+		if ta, tb := g.commonType(g.deps[0], g.deps[1]); ta != nil {
+			out = append(out, fg.refField(c, names, ta, 2), fg.refField(c, names, tb, 2))
+			g.feat("dep_prefix_pkgs_both_imported")
+		}
+	}
+	// foo.bar.v1 + baz.bar.v1: short alias and full name
+	if a, b := g.sharedA, g.sharedB; a != nil && p == g.sharedImp && fg.mayRef(a) && fg.mayRef(b) {
+		if ta, tb := g.commonType(a, b); ta != nil {
+			out = append(out, fg.refField(c, names, ta, 1), fg.refField(c, names, tb, 0))
+			if r.chance(70) {
+				out = append(out, fg.refField(c, names, ta, 2))
+			}
+			g.feat("shared_short_name_both_imported")
+		}
+	}
+	// deep package graph: use every planned edge, level-skipping ones included
+	if p.restrict {
+		for _, q := range g.pkgs {
+			if !p.allowed[q] || p.imported[q] || !fg.mayRef(q) || len(out) >= 4 {
+				continue
+			}
+			if tq := g.anyType(q); tq != nil {
+				out = append(out, fg.refField(c, names, tq, 0))
+				if p.order-q.order > 1 {
+					g.feat("deep_graph_level_skipping_import")
+				} else {
+					g.feat("deep_graph_import")
+				}
+			}
+		}
+	}
+	// the third package that imports both ends of a bare foreign reference
+	for _, pair := range g.barePairs {
+		from, to := pair[0], pair[1]
+		if p == from || p == to || !fg.mayRef(from) || !fg.mayRef(to) || len(out) >= 5 {
+			continue
+		}
+		if ta, tb := g.commonType(from, to); ta != nil {
+			out = append(out, fg.refField(c, names, ta, 0), fg.refField(c, names, tb, 0))
+			g.feat("bare_foreign_both_pkgs_imported_by_third")
+		}
+		break
+	}
+	// a key with a bare foreign reference
+	if g.on(XBareForeign) && r.chance(75) {
+		ft := ftype{typ: r.pick([]string{"key:id62", "key:uuid", "key"}), hasExt: true, canOptional: true, isKey: true}
+		if ft.typ != "key" {
+			ft.hasV, ft.anchorsV = true, true
+		}
+		ft.attrs = []string{"foreign = " + c.bareEntityRef()}
+		out = append(out, c.renderProperty("field", g.fieldName(names), ft, true))
+	}
+	// enum rules on enums defined elsewhere
+	if g.on(XEnumRulesXref) {
+		var cats [4][]*typeInfo // other j5s file of this package, other local package, hand-written proto, dep
+		for _, t := range g.types {
+			if t.kind != kEnum || len(t.options) == 0 || !fg.mayRef(t.pkg) {
+				continue
+			}
+			switch {
+			case t.origin == oDep:
+				cats[3] = append(cats[3], t)
+			case t.origin == oProto:
+				cats[2] = append(cats[2], t)
+			case t.pkg != p:
+				cats[1] = append(cats[1], t)
+			default:
+				cats[0] = append(cats[0], t)
+			}
+		}
+		for _, cat := range cats {
+			if len(cat) == 0 || !r.chance(80) {
+				continue
+			}
+			t := cat[r.intn(len(cat))]
+			n := r.between(1, len(t.options))
+			if n > 3 {
+				n = 3
+			}
+			opts := g.distinct(t.options, n)
+			q := make([]string, len(opts))
+			for i, o := range opts {
+				q[i] = fmt.Sprintf("%q", o)
+			}
+			attr := "rules.in = [" + strings.Join(q, ", ") + "]"
+			if r.chance(40) {
+				attr = "rules.notIn = [" + strings.Join(q, ", ") + "]"
+				g.feat("enum_rules_not_in")
+			} else {
+				g.feat("enum_rules_in")
+			}
+			fg.enumRuleFeat(t)
+			out = append(out, fg.refField(c, names, t, 0, attr))
+			g.xfeat(XEnumRulesXref)
+		}
+	}
+	return out
+}
+
+var simpleOptionTypes = []string{
+	"string", "bool", "integer:INT32", "integer:INT64", "integer:UINT32", "integer:UINT64",
+	"key:id62", "key:uuid", "key", "date", "decimal", "timestamp", "bytes",
+	"float:FLOAT32", "float:FLOAT64", "any",
+}
+
+// manyOptions renders n small oneof options (scalars, one or two references).
+func (c *fctx) manyOptions(n int, names *fieldNames) []string {
+	g := c.g
+	r := g.r
+	var out []string
+	for i := 0; i < n; i++ {
+		ft := ftype{typ: r.pick(simpleOptionTypes), hasExt: true}
+		if strings.HasPrefix(ft.typ, "key:") {
+			ft.hasV, ft.anchorsV = true, true
+		}
+		if i%4 == 3 {
+			kind := []int{kObject, kEnum, kOneof}[r.intn(3)]
+			if text, ti := c.fg.pickRef(kind, c.exclude); ti != nil {
+				ft.typ = []string{kObject: "object:", kOneof: "oneof:", kEnum: "enum:"}[kind] + text
+				if kind == kEnum {
+					ft.hasV, ft.anchorsV = true, true
+				}
+			}
+		}
+		out = append(out, c.renderProperty("option", g.fieldName(names), ft, false)...)
+	}
+	g.feat("oneof_very_many_options")
+	return out
+}
+
+// exoticFields returns the XObjectExotic fields (one []string per field):
+// flatten, required enum, required key without format, big inline oneof.
+func (fg *fileGen) exoticFields(c *fctx, names *fieldNames) [][]string {
+	g := fg.g
+	r := g.r
+	var out [][]string
+	g.xfeat(XObjectExotic)
+	if r.chance(80) {
+		ft := ftype{hasExt: true, canOptional: true, fixedMarker: true}
+		if text, ti := fg.pickRef(kObject, c.exclude); ti != nil && r.chance(70) {
+			ft.typ = "object:" + text
+			g.feat("object_flatten_ref")
+		} else {
+			ft.typ = "object"
+			ft.block = c.properties("field", r.between(1, 2), 2, newFieldNames(), true)
+			g.feat("object_flatten_inline")
+		}
+		ft.attrs = []string{"flatten = true"}
+		if r.chance(35) {
+			ft.marker = "! "
+			g.feat("object_flatten_required")
+		}
+		g.feat("object_flatten")
+		out = append(out, c.renderProperty("field", g.fieldName(names), ft, false))
+	}
+	if r.chance(80) {
+		ft := ftype{hasExt: true, hasV: true, anchorsV: true, fixedMarker: true, marker: "! "}
+		if text, ti := fg.pickRef(kEnum, c.exclude); ti != nil && r.chance(65) {
+			ft.typ = "enum:" + text
+		} else {
+			ft.typ = "enum"
+			ft.block = g.enumOptions(r.between(2, 3), nil)
+		}
+		g.feat("enum_field_required")
+		out = append(out, c.renderProperty("field", g.fieldName(names), ft, false))
+	}
+	if r.chance(80) {
+		ft := ftype{typ: "key", hasExt: true, isKey: true, fixedMarker: true, marker: "! "}
+		if r.chance(25) {
+			ft.typ = "key:informal"
+		}
+		g.feat("key_field_required_no_rules")
+		out = append(out, c.renderProperty("field", g.fieldName(names), ft, false))
+	}
+	if r.chance(55) {
+		ft := ftype{typ: "oneof", hasExt: true, canOptional: true}
+		ft.block = c.manyOptions(r.between(6, 10), newFieldNames())
+		out = append(out, c.renderProperty("field", g.fieldName(names), ft, true))
+	}
+	return out
+}
+
 func (fg *fileGen) renderOneof(kw, name string) []string {
 	g := fg.g
 	c := &fctx{g: g, fg: fg, vt: &vtrack{}, exclude: name}
@@ -465,7 +1061,14 @@ func (fg *fileGen) renderOneof(kw, name string) []string {
 	out := []string{kw + " " + name + " {"}
 	out = append(out, indent(g.descLines("oneof_desc", 40))...)
 	n := g.r.between(2, 4)
-	fields := c.properties("option", n, 0, names, false)
+	var fields []string
+	if g.on(XObjectExotic) && g.r.chance(50) {
+		n = g.r.between(6, 10)
+		fields = c.manyOptions(n, names)
+		g.xfeat(XObjectExotic)
+	} else {
+		fields = c.properties("option", n, 0, names, false)
+	}
 	if c.vt.needs && !c.vt.anchors {
 		fields = append(fields, c.anchor("option", names)...)
 	}
@@ -494,7 +1097,7 @@ func (fg *fileGen) pickRef(kind int, exclude string) (string, *typeInfo) {
 		}
 	}
 	for _, t := range g.types {
-		if t.kind != kind {
+		if t.kind != kind || !fg.mayRef(t.pkg) {
 			continue
 		}
 		switch {
@@ -521,6 +1124,104 @@ func (fg *fileGen) pickRef(kind int, exclude string) (string, *typeInfo) {
 	cat := cats[g.weighted(w)]
 	t := cat[g.r.intn(len(cat))]
 	return fg.refText(t), t
+}
+
+// mayRef reports whether this file may import package q: the package graph
+// may be restricted (deep graphs), and packages that are the target of a bare
+// foreign reference stay un-imported.
+func (fg *fileGen) mayRef(q *pkgInfo) bool {
+	p := fg.pkg
+	if q == p || !q.local {
+		return true
+	}
+	if p.restrict && !p.allowed[q] {
+		return false
+	}
+	return !p.avoid[q]
+}
+
+// newImport decides how package q is imported into this file and who owns
+// which alias. j5Imports() fills a map in file order, so the LAST import
+// defining an alias owns it; the generator lets the import that was added
+// FIRST own the alias and writes it after the ones that lost.
+func (fg *fileGen) newImport(t *typeInfo) *importInfo {
+	g := fg.g
+	r := g.r
+	q := t.pkg
+	imp := &importInfo{pkg: q, style: g.weighted([]int{38, 27, 35}), file: t.file}
+	if g.sharedImp == fg.pkg && (q == g.sharedA || q == g.sharedB) && r.chance(70) {
+		imp.style = 0 // make the clash of the implicit aliases likely
+	} else if g.on(XAliasCollision) && len(fg.imports) > 0 && r.chance(50) {
+		imp.style = 1
+	}
+	switch imp.style {
+	case 0:
+		if owner := fg.aliasOwner[q.short]; owner != nil {
+			imp.shortLost = true
+			owner.hasLosers = true
+			if owner.style == 1 {
+				g.feat("import_explicit_alias_shadows_implicit")
+				g.xfeat(XAliasCollision)
+			} else {
+				g.feat("import_short_alias_clash")
+			}
+		} else {
+			fg.aliasOwner[q.short] = imp
+		}
+	case 1:
+		imp.alias = q.alias
+		var steal []*importInfo
+		if g.on(XAliasCollision) {
+			// `import a.v1` + `import b.v1:a`: the explicit alias, written
+			// later, takes the name over. Possible while no reference went
+			// through the implicit alias yet.
+			for _, w := range fg.imports {
+				if w.style == 0 && !w.shortLost && !w.shortUsed && !w.hasLosers && w.pkg.short != q.short && fg.aliasOwner[w.pkg.short] == w {
+					steal = append(steal, w)
+				}
+			}
+		}
+		if len(steal) > 0 && r.chance(75) {
+			w := steal[r.intn(len(steal))]
+			imp.alias = w.pkg.short
+			w.shortLost = true
+			imp.hasLosers = true
+			fg.aliasOwner[imp.alias] = imp
+			fg.imports = append(fg.imports, imp)
+			if q.local {
+				fg.pkg.imported[q] = true
+			}
+			g.feat("import_explicit_alias_shadows_implicit")
+			g.xfeat(XAliasCollision)
+			return imp
+		}
+		if g.on(XAliasCollision) && r.chance(65) {
+			// an explicit alias that equals the implicit alias of another
+			// package of the bundle (which may or may not be imported later)
+			var cands []string
+			for _, list := range [][]*pkgInfo{g.deps, g.pkgs} {
+				for _, o := range list {
+					if o != q && o != fg.pkg && o.short != q.short && fg.aliasOwner[o.short] == nil {
+						cands = append(cands, o.short)
+					}
+				}
+			}
+			if len(cands) > 0 {
+				imp.alias = r.pick(cands)
+				g.feat("import_alias_is_other_pkg_short_name")
+				g.xfeat(XAliasCollision)
+			}
+		}
+		if fg.aliasOwner[imp.alias] != nil {
+			imp.alias = q.alias
+		}
+		fg.aliasOwner[imp.alias] = imp
+	}
+	fg.imports = append(fg.imports, imp)
+	if q.local {
+		fg.pkg.imported[q] = true
+	}
+	return imp
 }
 
 func (fg *fileGen) refText(t *typeInfo) string {
@@ -550,8 +1251,7 @@ func (fg *fileGen) refText(t *typeInfo) string {
 		}
 	}
 	if imp == nil {
-		imp = &importInfo{pkg: t.pkg, style: g.weighted([]int{38, 27, 35}), file: t.file}
-		fg.imports = append(fg.imports, imp)
+		imp = fg.newImport(t)
 	}
 	if t.pkg.local {
 		g.feat("cross_pkg_ref")
@@ -571,13 +1271,33 @@ func (fg *fileGen) refText(t *typeInfo) string {
 	}
 	switch imp.style {
 	case 0:
-		if r.chance(50) {
+		if imp.shortLost {
+			// the short alias resolves to another package of this file
+			g.feat("ref_full_pkg_alias_shadowed")
+			return t.pkg.name + "." + t.name
+		}
+		short := false
+		switch fg.refForm {
+		case 1:
+			short = true
+		case 2:
+		default:
+			short = r.chance(50)
+		}
+		if short {
+			imp.shortUsed = true
 			g.feat("ref_short_pkg")
+			if imp.hasLosers {
+				g.feat("ref_short_pkg_contested_alias")
+			}
 			return t.pkg.short + "." + t.name
 		}
 		return t.pkg.name + "." + t.name
 	case 1:
-		return t.pkg.alias + "." + t.name
+		if imp.alias != t.pkg.alias {
+			g.feat("ref_by_colliding_alias")
+		}
+		return imp.alias + "." + t.name
 	default:
 		return t.pkg.name + "." + t.name
 	}
